@@ -384,6 +384,12 @@ def _(n, T):
             F(n + "b", "char", [P("c", "val", "char"), P("k", "val", "int")])]
 
 
+@shape("ns_scalar", langs=("c++",), wraps=("c", "fortran", "lua"), doc="namespace.yaml: scalar functions inside a namespace block (every language that flattens or scopes the name)")
+def _(n, T):
+    return [F(n + "a", "int", [P("a", "val", "int")], ns=n + "_inner"),
+            F(n + "b", "double", [P("a", "val", "double"), P("b", "val", "int")], ns=n + "_inner")]
+
+
 @shape("class_const", langs=("c++",), wraps=("c",), doc="docs/classes.rst: const and non-const member functions, an overload pair that differs only in const, a const method declared first")
 def _(n, T):
     c = n + "_C"
